@@ -1,4 +1,5 @@
 import Casket.Proofs.Chain
+import Casket.Proofs.Cond
 import Casket.Generated.Directives
 /-
 C03 — Protected paths are never disclosed without valid credentials.
@@ -137,6 +138,28 @@ theorem C03_dirscoped_index_sibling_safe (fs : FS) (cs : ChainSite) (creds : Opt
     (hroot : NormalSegs cs.site.root) (hrd : RootIsDir fs cs.site) (hds : DirScoped cs) (hpn : PlainNames cs.site) :
     IndexSafe fs cs creds ∧ SiblingSafe fs cs creds :=
   ⟨indexSafe_of_dirScoped hds hroot hpn, siblingSafe_of_dirScoped hds hroot hrd hpn⟩
+
+/-- Metadata (HEAD, 304, 206, 416 answers): the headers of a file answer identify the served file
+(ETag, Content-Length, Content-Range — covered by the theorems above, it is the `.file` inode) and
+the resolved file (Last-Modified; `Cond.applyCond` mentions no other inode).  Under the hypotheses
+of the partial theorem the resolved file passes the judge as well: no size, entity tag or
+modification time of a covered file is disclosed without accepted credentials. -/
+theorem C03_metadata_partial (fs : FS) (cs : ChainSite) (r : CReq) (u : Url) (ino : Nat) (enc : Option Bytes)
+    (hroot : NormalSegs cs.site.root) (hpre : NormalPrefix cs.site.pathPrefix) (hrd : RootIsDir fs cs.site)
+    (hw : TargetsNonEmpty cs) (hl : NoHardLinks fs) (his : IndexSafe fs cs r.creds)
+    (hu : finalUrl fs cs r = some u) (h : chainServe fs cs r = .served (.file ino enc)) :
+    ChainSpec.verdict fs cs r (.served (.file (Casket.Cond.resolvedIno fs cs.site u) none)) = "ok" ∧
+    ∀ (c : Casket.Cond.Cond), ∀ i ∈ Casket.CondSpec.mentioned (Casket.Cond.applyCond c ino enc (Casket.Cond.resolvedIno fs cs.site u)),
+      i = ino ∨ i = Casket.Cond.resolvedIno fs cs.site u := by
+  refine ⟨chainServe_resolved_ok hroot hpre hrd hw hl his hu h, ?_⟩
+  intro c i hi
+  rcases Casket.CondProofs.applyCond_cases c ino enc (Casket.Cond.resolvedIno fs cs.site u) with h | h | ⟨a, b, h⟩ | h | h | h <;>
+    rw [h] at hi <;> simp [Casket.CondSpec.mentioned] at hi
+  · exact hi
+  · exact Or.inl hi
+  · exact hi
+  · exact hi
+  · exact Or.inl hi
 
 /-- Archives and proxies, syntactically: if no `servearchive` browse scope and no proxy `from`
 scope lies strictly above a protection scope (`ScopeClear`: every resource, exclusion or internal
